@@ -5,7 +5,7 @@ import SqVerif.Drive.Util
    topology token: `none` | `{}` | `A:B,C;B:;C:A`   (dict in key order; `K:` = empty neighbour list)
    in : `adj TOPO | ME | OTHER`
         `ids N1,N2,...`                              (hostDict order)
-        `guard N1,N2,... | TOPO | ME | RID`
+        `guard N1,N2,... | TOPO | ME | RID`          (RID a signed decimal integer: the value of a NetQASM register)
         `exec N1,N2,... | TOPO | ME | RID`           (the generated statement list of cmd_epr)
    out: `true` / `false`
         `N_a,N_b,...`                                (sorted: position = node id)
@@ -56,12 +56,12 @@ def handle (line : String) : String :=
     | none => "bad-op"
   | [["ids", ns]] => ",".intercalate (sortNames ltS (commaList ns))
   | [["guard", ns], [t], [me], [rid]] =>
-    match parseTopo? t, rid.toNat? with
-    | some topo, some rid => showGuard (cmdEprGuard ltS (commaList ns) topo me rid)
+    match parseTopo? t, rid.toInt? with
+    | some topo, some rid => showGuard (cmdEprGuardI ltS (commaList ns) topo me rid)
     | _, _ => "bad-op"
   | [["exec", ns], [t], [me], [rid]] =>
-    match parseTopo? t, rid.toNat? with
-    | some topo, some rid => showExec (exec ltS (commaList ns) topo me rid SqVerif.Gen.EprGuards.cmdEprStmts)
+    match parseTopo? t, rid.toInt? with
+    | some topo, some rid => showExec (execI ltS (commaList ns) topo me rid SqVerif.Gen.EprGuards.cmdEprStmts)
     | _, _ => "bad-op"
   | _ => "bad-op"
 
